@@ -4,7 +4,7 @@
      S <seq> <next> <converters> <fixed|orig>
      P <def> <err> <data> <rel> <group> <idsok> <main> <sub> <ids>     parse table entry (query.Parse, from the harness)
      A <name> <color> <def> | D <name> | UC <name> <color> | UQ <name> <def> | UN <name> <newname>
-     UV <name> <converters> | UA <name> <ids> | UD <name> <ids> *)
+     UV <name> <converters> | UA <name> <ids> | UD <name> <ids> | N (restart of the service: no-op) *)
 module M = C11_model
 
 let rec pos_of_int (i : int) : M.positive =
@@ -102,6 +102,7 @@ let () =
                          M.p_group = flag a.(5); M.p_ids = (if flag a.(6) then Some (nums a.(9)) else None) }
              in
              Hashtbl.replace table (unhex a.(1)) r
+         | "N" -> output_string oc ("R ok | " ^ dump !st ^ "\n")    (* restart: the model state is unchanged *)
          | "A" -> call (M.CAdd (cs a.(1), cs a.(2), cs a.(3)))
          | "D" -> call (M.CDel (cs a.(1)))
          | "UC" -> call (M.CUpd (cs a.(1), M.UColor (cs a.(2))))
